@@ -43,9 +43,7 @@ func (e *env) after(s Session, pk []pkt, processed int) string {
 			}
 		}
 	}
-	if s.Will == "ok" {
-		wantBy = append(wantBy, "will/|last-will-of-victim")
-	}
+	must, may := wantWill(s, pk, processed)
 	got, err := e.by.Barrier()
 	if err != nil {
 		return "bystander barrier: " + err.Error()
@@ -54,8 +52,8 @@ func (e *env) after(s Session, pk []pkt, processed int) string {
 	for _, p := range got {
 		gotBy = append(gotBy, p.TopicName+"|"+string(p.Payload))
 	}
-	if fmt.Sprint(gotBy) != fmt.Sprint(wantBy) {
-		return fmt.Sprintf("bystander (will watcher) received %v, expected %v (will variant %q, %d requests served)", gotBy, wantBy, s.Will, processed)
+	if msg := checkWill(gotBy, wantBy, must, may); msg != "" {
+		return fmt.Sprintf("%s (will variant %q, %d requests served)", msg, s.Will, processed)
 	}
 	if d := dump(e.b); fmt.Sprint(d) != fmt.Sprint(e.baseline) {
 		return fmt.Sprintf("subscription index after the connection ended has %d entries, baseline %d: %v vs %v", len(d), len(e.baseline), d, e.baseline)
